@@ -253,6 +253,9 @@ pub fn generate_c18(rng: &mut Rng, thorough: bool) -> Vec<String> {
         v.push(format!("{op} {y} {m} {refd} {dus} {ov}"));
         let op = if k % 2 == 0 { "ym_until" } else { "ym_since" };
         v.push(format!("{op} {y} {m} {refd} {y2} {m2} {refd2} {} - - {}", rng.pick(&largest), rng.pick(&mopt)));
+        // with smallestUnit / roundingIncrement (the relative-rounding machinery, from the first of both months)
+        v.push(format!("{op} {y} {m} {refd} {y2} {m2} {refd2} {} {} {} {}", rng.pick(&["-", "auto", "year", "month"]),
+            rng.pick(&["-", "month", "year", "month"]), rng.pick(&["-", "1", "2", "3", "5", "6", "12"]), rng.pick(&mopt)));
         v.push(format!("ym_cmp {y} {m} {refd} {y2} {m2} {refd2}"));
         if k % 4 == 0 {
             v.push(format!("ym_with {y} {m} {refd} {} {}", rand_partial(rng), pick(rng, &OVS)));
